@@ -1,8 +1,133 @@
 import Driver.Util
-open Lean
+import Paroxy.Model.Cli
+open Lean Paroxy Paroxy.Cli
 
 namespace Driver.C18
 
-def handlers : List (String × Handler) := []
+def txt (t : Str) : Json := Json.str (String.ofList t)
+def pathJson (p : PPath) : Json := txt p.render
+
+def optStr (j : Json) (k : String) : Str :=
+  match j.getObjVal? k with
+  | .ok (Json.str s) => s.toList
+  | _ => []
+
+def optBool (j : Json) (k : String) : Bool :=
+  match j.getObjVal? k with
+  | .ok (Json.bool b) => b
+  | _ => false
+
+/-- The world is sent as the listing of a scratch tree: absolute paths of its directories and files,
+the current directory, the pipeline files `literal_eval` rejects and the unreadable files. -/
+def worldOf (j : Json) : Except String World := do
+  let wj ← j.getObjVal? "world"
+  let dirs ← strList (← wj.getObjVal? "dirs")
+  let files ← strList (← wj.getObjVal? "files")
+  let bad ← strList (← wj.getObjVal? "badPipes")
+  let unreadable ← strList (← wj.getObjVal? "unreadable")
+  let cwd := (PPath.parse (optStr wj "cwd")).parts
+  let norm := fun (s : String) => (PPath.parse s.toList).resolve cwd
+  let dirs := dirs.map norm
+  let files := files.map norm
+  let bad := bad.map norm
+  let unreadable := unreadable.map norm
+  pure {
+    isDir := fun p => dirs.contains (p.resolve cwd)
+    isFile := fun p => files.contains (p.resolve cwd)
+    pipelineParses := fun p => !bad.contains (p.resolve cwd)
+    readable := fun p => files.contains (p.resolve cwd) && !unreadable.contains (p.resolve cwd)
+    cwd := cwd }
+
+def exitJson : Exit → Json
+  | .noDirectory => "noDirectory"
+  | .noDbPath => "noDbPath"
+  | .noDatabase => "noDatabase"
+  | .malformedPipeline => "malformedPipeline"
+  | .noPipeline => "noPipeline"
+  | .unreadable => "unreadable"
+
+def outcomeJson {α : Type} (f : α → Json) : Outcome α → Json
+  | .exit e => Json.mkObj [("exit", exitJson e)]
+  | .raises exc => Json.mkObj [("raises", txt exc)]
+  | .run p => Json.mkObj [("plan", f p)]
+
+def optPath : Option PPath → Json
+  | some p => pathJson p
+  | none => Json.null
+
+def collect : Handler := fun j => do
+  let w ← worldOf j
+  let aj ← j.getObjVal? "args"
+  let a : CollectArgs := {
+    directory := optStr aj "DIRECTORY", taxonomy := optStr aj "--taxonomy", cleanup := optStr aj "--cleanup",
+    skip := optStr aj "--skip", glob := optStr aj "--glob", output := optStr aj "--output",
+    log := optBool aj "--log", noTimestamp := optBool aj "--no_timestamp" }
+  pure <| outcomeJson (fun (p : CollectPlan) => Json.mkObj [
+    ("directory", pathJson p.directory), ("ignore_timestamps", Json.bool p.ignoreTimestamps),
+    ("cleanup_strategy", txt p.cleanup), ("skip_pattern", txt p.skip), ("glob_pattern", txt p.glob),
+    ("print_performances", Json.bool p.printPerformances), ("taxonomy_path", optPath p.taxonomy),
+    ("out", match p.out with
+      | .json q => Json.arr #["json", pathJson q]
+      | .sqlite q => Json.arr #["sqlite", pathJson q]
+      | .nothing => Json.arr #["nothing", Json.null])]) (collectPlan a w)
+
+def recommend : Handler := fun j => do
+  let w ← worldOf j
+  let aj ← j.getObjVal? "args"
+  let a : RecArgs := {
+    dbPath := optStr aj "DB_PATH", base := optStr aj "--base", cost := optStr aj "--cost",
+    output := optStr aj "--output", pipe := optStr aj "--pipe", format := optStr aj "--format" }
+  pure <| outcomeJson (fun (p : RecPlan) => Json.mkObj [
+    ("db", pathJson p.db), ("announced_db", Json.bool p.announcedDb), ("prefix", txt p.pfx),
+    ("pipe", match p.pipe with
+      | .file q => pathJson q
+      | .empty => Json.null),
+    ("base_path", pathJson p.base), ("assessment_strategy", txt p.cost), ("title_format", txt p.titleFormat),
+    ("messages_on_stderr", Json.bool p.messagesOnStderr),
+    ("out", match p.out with
+      | .stdout => Json.null
+      | .file q => pathJson q)]) (recommendPlan a w)
+
+def tag : Handler := fun j => do
+  let w ← worldOf j
+  let aj ← j.getObjVal? "args"
+  let a : TagArgs := {
+    filename := optStr aj "FILENAME", format := optStr aj "--format", taxonomy := optStr aj "--taxonomy",
+    labels := optBool aj "--labels" }
+  pure <| outcomeJson (fun (p : TagPlan) => Json.mkObj [
+    ("file", pathJson p.file), ("tags", if p.labelsNotTaxa then "Label" else "Taxon"),
+    ("relative_path", pathJson p.relativePath), ("output_format", if p.markdown then "md" else "tsv"),
+    ("taxonomy_path", optPath p.taxonomy)]) (tagPlan a w)
+
+/-- `c18.model.select`: `paths` (what glob returned, any order) and `skips` (the regex engine's
+`fullmatch(skip, name)` for each of them, in the same order). -/
+def select : Handler := fun j => do
+  let paths ← strList (← j.getObjVal? "paths")
+  let skips ← (← getArr j "skips").toList.mapM fun x => x.getBool?
+  let ps := paths.map fun s => PPath.parse s.toList
+  let table := ps.zip skips
+  -- the oracle is a function of the NAME: first answer recorded for that name
+  let skipFn := fun (name : Str) => ((table.find? fun (p, _) => p.name == name).map (·.2)).getD false
+  pure (Json.mkObj [("r", Json.arr ((selectPrograms ps skipFn).map pathJson).toArray)])
+
+/-- `c18.spec.names`: prefix and default-skip answers for names; effective patterns. -/
+def names : Handler := fun j => do
+  let ns ← strList (← j.getObjVal? "names")
+  pure (Json.mkObj [
+    ("prefix", Json.arr (ns.map fun n => txt (prefixOf n.toList)).toArray),
+    ("defaultSkips", Json.arr (ns.map fun n => Json.bool (defaultSkips n.toList)).toArray),
+    ("defaultGlob", txt defaultGlob), ("defaultSkip", txt defaultSkip)])
+
+/-- `c18.model.paths`: the pathlib model on strings. -/
+def paths : Handler := fun j => do
+  let ss ← strList (← j.getObjVal? "paths")
+  let cwd := (PPath.parse (optStr j "cwd")).parts
+  pure (Json.mkObj [("r", Json.arr (ss.map fun s =>
+    let p := PPath.parse s.toList
+    Json.arr #[pathJson p, pathJson p.parent, txt p.name, pathJson (p.resolve cwd)]).toArray)])
+
+def handlers : List (String × Handler) :=
+  [("c18.model.collect", collect), ("c18.model.recommend", recommend), ("c18.model.tag", tag),
+   ("c18.model.select", select), ("c18.spec.names", names), ("c18.model.paths", paths)]
 
 end Driver.C18
